@@ -21,19 +21,30 @@ Qed.
 Definition installs_ok (l : list event) : Prop :=
   forall p n r, In (EInstall p n r) l -> p = real_thr -> 1 <= Z.of_N n.
 
-Lemma apply_event_pos t e : thr_pos t -> installs_ok [e] -> thr_pos (apply_event t e).
+Lemma set_thr_pos ms id v : thr_pos (md_thr ms) -> 1 <= v -> thr_pos (md_thr (set_thr id v ms)).
 Proof.
-  intros Ht He. destruct e as [v k d|p c0 au r|p c0 au r|p param r|p r]; cbn [apply_event]; try exact Ht.
-  - destruct (N.eqb p real_thr) eqn:E; [|exact Ht]. apply N.eqb_eq in E.
-    intros id v. cbn [thr_get]. destruct (id =? r_id r).
-    + intros H. injection H as <-. apply (He p param r); [left; reflexivity|exact E].
-    + intros H. apply (Ht id v). eapply thr_get_remove; eauto.
-  - destruct (N.eqb p real_thr); [|exact Ht]. intros id v H. apply (Ht id v). eapply thr_get_remove; eauto.
+  intros Ht Hv id' w. unfold set_thr. cbn [md_thr thr_get]. destruct (id' =? id).
+  - intros H. injection H as <-. exact Hv.
+  - intros H. apply (Ht id' w). eapply thr_get_remove; eauto.
 Qed.
 
-Lemma fold_apply_pos l : forall t, thr_pos t -> installs_ok l -> thr_pos (fold_left apply_event l t).
+Lemma apply_event_pos ms e : thr_pos (md_thr ms) -> installs_ok [e] -> thr_pos (md_thr (apply_event ms e)).
 Proof.
-  induction l as [|e r IH]; intros t Ht Hl; [exact Ht|]. cbn [fold_left]. apply IH.
+  intros Ht He. destruct e as [v k d|p c0 au r|p c0 au r|p param r|p r]; cbn [apply_event]; try exact Ht.
+  - destruct (N.eqb p real_spend); [|exact Ht].
+    destruct (spend_get (md_spend ms) (r_id r)) as [d|]; [|exact Ht].
+    destruct (spend_enforce d (md_now ms) c0 au); exact Ht.
+  - destruct (N.eqb p real_thr) eqn:E.
+    + apply N.eqb_eq in E. apply set_thr_pos; [exact Ht|]. apply (He p param r); [left; reflexivity|exact E].
+    + destruct (N.eqb p real_spend); exact Ht.
+  - destruct (N.eqb p real_thr).
+    + cbn [md_thr]. intros id v H. apply (Ht id v). eapply thr_get_remove; eauto.
+    + destruct (N.eqb p real_spend); exact Ht.
+Qed.
+
+Lemma fold_apply_pos l : forall ms, thr_pos (md_thr ms) -> installs_ok l -> thr_pos (md_thr (fold_left apply_event l ms)).
+Proof.
+  induction l as [|e r IH]; intros ms Ht Hl; [exact Ht|]. cbn [fold_left]. apply IH.
   - apply apply_event_pos; [exact Ht|]. intros p n x [He|[]] Hp. apply (Hl p n x); [left; exact He|exact Hp].
   - intros p n x Hx Hp. apply (Hl p n x); [right; exact Hx|exact Hp].
 Qed.
@@ -43,7 +54,7 @@ Proof. intros H1 H2 p n r Hi. apply in_app_or in Hi. destruct Hi; eauto. Qed.
 
 Lemma install_answer_real ms n r : install_answer ms real_thr n r = true -> 1 <= Z.of_N n.
 Proof.
-  unfold install_answer. rewrite N.eqb_refl. destruct (thr_of ms (r_id r)); [discriminate|].
+  unfold install_answer. change (N.eqb real_thr real_thr) with true. cbn iota. destruct (thr_of ms (r_id r)); [discriminate|].
   intros H. apply andb_prop in H. destruct H as [H _]. lia.
 Qed.
 
@@ -108,18 +119,26 @@ Proof.
   - destruct (s_deployed st); [exact H|].
     destruct (add_context_rule _ c (s_acct st) (s_now st) TDefault 0%N None signers policies) as [[[a1 r1] l1]|] eqn:E;
       cbn [fst s_modes]; [|exact H].
-    cbn [apply_log md_thr]. apply fold_apply_pos; [exact H|].
+    unfold apply_log. apply fold_apply_pos; [exact H|].
     unfold add_context_rule in E. inv_bind E. inversion E; subst. eapply install_all_ok; eauto.
   - destruct ((0 <=? n) && in_u32 (s_now st + n)); exact H.
   - exact H.
   - destruct (negb (s_deployed st)); [exact H|].
     destruct (do_check_auth _ (s_acct st) (s_now st) auths sigs [CCall self (fn_of op)]) as [l1|] eqn:E1; cbn [bind]; [|exact H].
     destruct (run_op _ c (s_acct st) (s_now st) op) as [[[a1 ret] l2]|] eqn:E2; cbn [bind fst s_modes]; [|exact H].
-    cbn [apply_log md_thr]. apply fold_apply_pos; [exact H|]. apply installs_ok_app.
+    unfold apply_log. apply fold_apply_pos; [exact H|]. apply installs_ok_app.
     + eapply check_log_no_install; eauto.
     + eapply run_op_installs_ok; eauto.
-  - destruct (negb (s_deployed st)); [exact H|]. destruct (do_check_auth _ _ _ _ _ _); exact H.
-  - destruct (negb (s_deployed st)); [exact H|]. destruct (do_check_auth _ _ _ _ _ _); exact H.
+  - destruct (negb (s_deployed st)); [exact H|].
+    destruct (do_check_auth _ (s_acct st) (s_now st) auths sigs cs) as [l|] eqn:E; cbn [fst s_modes]; [|exact H].
+    unfold apply_log. apply fold_apply_pos; [exact H|]. eapply check_log_no_install; eauto.
+  - destruct (negb (s_deployed st)); [exact H|].
+    destruct (do_check_auth _ (s_acct st) (s_now st) auths sigs cs) as [l|] eqn:E; cbn [fst s_modes]; [|exact H].
+    unfold apply_log. apply fold_apply_pos; [exact H|]. eapply check_log_no_install; eauto.
+  - destruct (negb (s_deployed st)); [exact H|].
+    destruct (do_check_auth _ (s_acct st) (s_now st) auths sigs _) as [l|] eqn:E; [|exact H].
+    destruct ((1 <=? t) && (t <=? nsig)) eqn:Et; cbn [fst s_modes]; [|exact H].
+    apply set_thr_pos; [|lia]. unfold apply_log. apply fold_apply_pos; [exact H|]. eapply check_log_no_install; eauto.
 Qed.
 
 Lemma thr_pos_run c cs : forall st, thr_pos (md_thr (s_modes st)) -> thr_pos (md_thr (s_modes (run c st cs))).
@@ -141,7 +160,9 @@ Proof.
   { clear -Hf Hr. induction Hf as [|c0 r0 cs0 rs0 Hd Hf IH]; [destruct Hr|]. destruct Hr as [->|Hr]; eauto. }
   destruct Hd as [c0 [_ [_ [_ [Hreq _]]]]].
   destruct Hreq as [[Hnil _]|[_ Hcan]]; [rewrite Hnil in Hp; destruct Hp|].
-  specialize (Hcan real_thr Hp). cbn [o_can oracles_of] in Hcan. unfold can_answer in Hcan. rewrite N.eqb_refl in Hcan.
+  specialize (Hcan real_thr Hp). cbn [o_can oracles_of] in Hcan. unfold can_answer in Hcan.
+  change (N.eqb real_thr real_thr) with true in Hcan. cbn iota in Hcan.
+  destruct (thr_busy (s_modes st)); [discriminate|].
   unfold thr_met in Hcan. unfold auth_of, get_authenticated_signers in Hcan.
   destruct (thr_of (s_modes st) (r_id r)) as [t|] eqn:Et; [|discriminate].
   exists t. split; [reflexivity|]. split.
